@@ -2,7 +2,8 @@
 PROP, LEVEL, ENGINE = "C08", "proof", "pyvc"
 DESIGN_REF = "DESIGN.md section 3 C08 and Appendix A"
 TECHNIQUE = ("deductive: typestate (ghost version) analysis of the real sampler/propagator/driver ASTs with per-function contracts; "
-             "scan bodies proved as inductive steps, entry points analysed from an arbitrary (incoherent) state")
+             "scan bodies proved as inductive steps, entry points analysed from an arbitrary (incoherent) state. "
+             "Plus, for the free-projection path, the traced propagate_free over Q(i)(x) with qr under its contract (kind bounded, shape-bounded): C08.free.*")
 EXPLANATION = ("Ghost state on prop_data: the structural walker value and the (walkers, wave_data) pair the cached overlaps were computed from. "
                "Obligations: every step function (propagate, propagate_one_body, CPMC site-scan bodies) is entered with a coherent cache, every "
                "arithmetic read of the cache inside a step sees the value of the last coherent point, every step returns a coherent state "
@@ -14,7 +15,8 @@ LEVEL_TEXT = EXPLANATION
 LEVEL_NOTE = ("Abstract interpretation rules are lemmas (DESIGN.md App. A): walker-modifying calls produce fresh values; trial.calc_overlap(w, d) yields a value "
               "tagged (w, d); jnp.where selections are tracked per mask; `ratios * overlaps` keeps coherence under the C10 contract (assumed here, checked in C10); "
               ".real on CPMC walkers is the identity (walkers real-valued). 'cached = recomputed' is version equality: determinism of calc_overlap assumed. "
-              "The second sentence of the property (block composition = explicit step replay) is the corollary, not separately checked.")
+              "The second sentence of the property (block composition = explicit step replay) is the corollary, not separately checked. "
+              "C08.free.* (free-projection path, kind bounded, engine B): cached overlap = overlap(stored walkers) x accumulated QR norms of BOTH spin blocks, at an open-shell shape.")
 TRUSTED_BASE = ["python ast", "typestate transfer rules of DESIGN.md Appendix A", "class table / method resolution of vc/front.py", "C10 contracts for the incremental CPMC overlap update"]
 ASSUMPTIONS = ["calc_overlap is a deterministic function of (walkers, wave_data)", "CPMC walkers are real-valued", "lax.scan(f, init, xs) iterates f; checkpoint(f) = f"]
 DROPPED = ["all arithmetic (only data flow of walkers / overlaps / wave_data is tracked)", "jit decorators"]
@@ -33,6 +35,7 @@ def tasks(tier):
         for m in ("propagate", "propagate_one_body"):
             t.append((T, "step_function", dict(prop_cls=p, meth=m)))
     t += [(T, "driver", {}), (T, "canary", {})]
+    t.append(("contracts.series", "free_coherence", dict(norb=3, nu=2, nd=1)))       # free-projection path: overlaps = overlap(Q) x accumulated norms (engine B, bounded)
     return t
 
 
@@ -41,8 +44,8 @@ def post(obs, tier, rep):
     from contracts import native
     done = {}
     for o in obs:
-        if o["status"] != "refuted" or o["kind"] == "canary":
-            continue
+        if o["status"] != "refuted" or o["kind"] == "canary" or ".free." in o["name"]:
+            continue        # C08.free.* carry their own native replay (free_projection_deviation)
         parts = o["name"].split(".")
         entry = next((p for p in parts if p.startswith("propagate_phaseless")), "propagate_phaseless")
         restricted = "propagator_unrestricted" not in parts and not any("cpmc" in p for p in parts)
